@@ -209,7 +209,19 @@ def run_cmd(cmd, cwd=None, timeout=3600, input=None, env=None):
 def lean_driver(model, lines, timeout=1800):
     """Feed op lines to the Lean model driver, return its output lines."""
     inp = '\n'.join(lines) + '\n'
-    rc, out, err = run_cmd(['lake', 'env', 'lean', '--run', 'drivers/%s.lean' % model], cwd=LEAN_DIR, input=inp, timeout=timeout)
+    cmd = ['lake', 'env', 'lean', '--run', 'drivers/%s.lean' % model]
+    exe = os.path.join(LEAN_DIR, '.lake', 'build', 'bin', '%s_driver' % model)
+    if os.path.exists(exe):
+        # the compiled driver is used only when no model / driver source is newer than it (lake rebuilds it in every check)
+        newest = 0
+        for dp, _dn, fn in os.walk(os.path.join(LEAN_DIR, 'LPVerif')):
+            for f in fn:
+                if f.endswith('.lean'):
+                    newest = max(newest, os.path.getmtime(os.path.join(dp, f)))
+        newest = max(newest, os.path.getmtime(os.path.join(LEAN_DIR, 'drivers', '%s.lean' % model)))
+        if os.path.getmtime(exe) >= newest:
+            cmd = [exe]
+    rc, out, err = run_cmd(cmd, cwd=LEAN_DIR, input=inp, timeout=timeout)
     if rc != 0:
         raise RuntimeError('lean driver failed (%d): %s %s' % (rc, out[-2000:], err[-2000:]))
     return out.splitlines()
